@@ -247,7 +247,7 @@ SCENARIOS = {
     "files": dict(fix="F3", depth=2, tdepth=3, ops=["CreateFile", "RemoveFile", "AddToFile", "RemoveFromFile", "Remove", "CreateNamed", "CreateSub", "Move", "Copy"],
                   elems=["ELEMENTS"], named=["AR-PACKAGE", "SYSTEM-SIGNAL"], names=["a", "d"], pos=[], wild=False, files=["f1", "f3"], vers=["V50"], ser=True),
     "merge": dict(fix="F5", depth=3, tdepth=4, ops=["Load", "CreateFile", "AddToFile", "RemoveFromFile", "RemoveFile", "Duplicate"], elems=[], named=[], names=["a"],
-                  pos=[], wild=False, files=["f3"], vers=["V50"], docs=["pb", "pe", "pr", "pn", "po", "px", "pf", "cd", "cf", "dupk", "pv", "mt"], ser=True),
+                  pos=[], wild=False, files=["f3"], vers=["V50"], docs=["pb", "pe", "pr", "pn", "po", "px", "pf", "cd", "cf", "dupk", "pv", "mt", "k1", "k2"], ser=True),
     "copy": dict(fix="F4", depth=2, tdepth=2, ops=["Copy", "Duplicate", "SetAttr", "RemoveAttr", "Rename", "Remove", "SetComment"],
                  elems=[], named=[], names=["a", "b"], pos=[0], wild=False, ser=True),
 }
@@ -835,6 +835,22 @@ def e2_run(tier):
         lst = sorted(lst, key=lambda s: len(s["sched"]))
         for s in lst[:per]:
             cand.append({"id": "cand:%s|%s" % cls, "cls": list(cls), "ops": [s["a"], s["b"]], "schedule": s["sched"], "gate": pairs[s["pair"] - 1]["locks"]})
+    # and per pair of operations with a stuck state on the model: its shortest witness schedules (of different classes first)
+    bypair = {}
+    for key2, s in stuck.items():
+        bypair.setdefault((s["a"], s["b"]), []).append(s)
+    perpair = 2 if tier == "quick" else 4
+    for (a, b), lst in sorted(bypair.items()):
+        lst = sorted(lst, key=lambda s: len(s["sched"]))
+        seen_cls, pick = set(), []
+        for s in lst:
+            cls = tuple(sorted([fns.get(s["s1"], s["s1"]), fns.get(s["s2"], s["s2"])]))
+            if cls not in seen_cls:
+                seen_cls.add(cls)
+                pick.append(s)
+        for s in (pick + lst)[:perpair]:
+            cand.append({"id": "pair:%s|%s" % (a, b), "cls": [], "ops": [s["a"], s["b"]], "schedule": s["sched"], "gate": pairs[s["pair"] - 1]["locks"]})
+    res["stuck_pairs"] = sorted("%s||%s" % k for k in bypair)
     # plus seeded random schedules over conflicting pairs (no model behind them: real threads, real locks)
     nrand = 40 if tier == "quick" else 600
     for i in range(nrand):
@@ -946,9 +962,12 @@ def check_c15(tier):
     viol = 0
     known = {}
     seen = set()
+    dump = {}
     for d in res["c15"]["deadlocks"]:
-        cls = tuple(d["cls"])
-        hit = [f for f in kf if tuple(sorted(f["functions"])) == cls]
+        # a known finding is a pair of operations that deadlocks (at whichever of its lock acquisitions the threads meet)
+        cls = tuple(sorted(d["ops"]))
+        dump.setdefault("||".join(cls), {"ops": list(cls), "sites": d["sites"], "functions": d["cls"]})
+        hit = [f for f in kf if tuple(sorted(f.get("ops", []))) == cls]
         if hit:
             known[hit[0]["id"]] = hit[0]
             continue
@@ -961,14 +980,17 @@ def check_c15(tier):
         path = os.path.join(dd, "C15-%d.json" % viol)
         json.dump(dict(d, property="C15", engine="E2"), open(path, "w"))
         print("VIOLATION property=C15 replay=%s" % path)
-        log("   %s || %s: both threads blocked forever at %s (functions %s)" % (d["ops"][0], d["ops"][1], d["sites"], list(cls)))
-    for fid, f in known.items():
+        log("   %s || %s: both threads blocked forever at %s (functions %s)" % (d["ops"][0], d["ops"][1], d["sites"], d["cls"]))
+    if os.environ.get("VERIF_E2_DUMP"):
+        json.dump(dump, open(os.environ["VERIF_E2_DUMP"], "w"), indent=1)
+    for fid, f in sorted(known.items()):
         print("KNOWN-FINDING: property=C15 %s" % f["what"])
     ev = {"property_id": "C15", "tier": tier, "seed": seed(), "level": "model_checking",
           "coverage": {"states": max(1, res["states"]), "transitions": max(1, res["transitions"]), "traces_validated_against_impl": res["c15"]["confirm_runs"],
                        "samples": [{"ops": d["ops"], "blocked_at": d["sites"]} for d in res["c15"]["deadlocks"][:4]] or ["no deadlock"],
                        "operation_pairs": res["pairs"], "stuck_states_distinct_sites": res["stuck_candidates"], "deadlock_classes_on_model": res["c15"]["classes"],
-                       "deadlocks_confirmed_on_real_threads": len(res["c15"]["deadlocks"]), "known_findings_hit": sorted(known.keys()), "exhaustive": True,
+                       "deadlocks_confirmed_on_real_threads": len(res["c15"]["deadlocks"]), "operation_pairs_with_a_stuck_state_on_the_model": len(res.get("stuck_pairs", [])),
+                       "operation_pairs_deadlocked_on_real_threads": len(dump), "known_findings_hit": sorted(known.keys()), "exhaustive": True,
                        "explanation": "lock programs recorded from the current tree for 36 operations; every interleaving of every conflicting pair explored by TLC under the parking_lot reader-writer semantics (spec/locks/LockMC.tla); each class of stuck state is replayed with its witness schedule on real threads with the lock shim gating every event of the shared locks; seeded random schedules in addition"},
           "assumptions": ["the lock semantics of LockMC.tla (task-fair parking_lot RwLock)", "failure behaviour of timed acquisitions by enclosing function (abort / skip table)", "deadlock = every unfinished thread inside an untimed acquisition for 1.5 s without any lock event"],
           "wall_s": round(time.time() - t0, 2), "violations": viol}
@@ -987,6 +1009,11 @@ def check_c16(tier):
     viol = 0
     known = {}
     seen = set()
+    if os.environ.get("VERIF_E2_DUMP16"):
+        dump = {}
+        for v in res["c16"]["verdicts"]:
+            dump.setdefault("||".join(sorted(v["ops"])), {"ops": sorted(v["ops"]), "res": v["res"]})
+        json.dump(dump, open(os.environ["VERIF_E2_DUMP16"], "w"), indent=1)
     for v in res["c16"]["verdicts"]:
         cls = tuple(sorted(v["ops"]))
         hit = [f for f in kf if tuple(sorted(f["ops"])) == cls]
